@@ -293,9 +293,9 @@ func Observe(qf qframe.QFrame) Frame {
 	return f
 }
 
-// observeSlices is a second observation path: every column through View.Slice()
+// ObserveSlices is a second observation path: every column through View.Slice()
 // instead of View.ItemAt.
-func observeSlices(qf qframe.QFrame) Frame {
+func ObserveSlices(qf qframe.QFrame) Frame {
 	if qf.Err != nil {
 		return Frame{Err: true, ErrText: qf.Err.Error(), N: qf.Len()}
 	}
@@ -356,7 +356,7 @@ func ObserveAs(qf qframe.QFrame, want Frame) Frame {
 	if Diff(want, obs) == "" {
 		return obs
 	}
-	if alt := observeSlices(qf); Diff(want, alt) == "" {
+	if alt := ObserveSlices(qf); Diff(want, alt) == "" {
 		return alt
 	}
 	return obs
